@@ -302,7 +302,13 @@ class MailboxData(MailboxDataInterface[Message]):
             record, maildir_msg = await self._get_maildir_msg(uid)
         except KeyError:
             return None
-        copy_msg = MaildirMessage(maildir_msg)
+        try:
+            raw = self._maildir.get_bytes(record.key)
+        except (KeyError, FileNotFoundError):
+            return None
+        copy_msg = _RawMaildirMessage(raw)
+        copy_msg.set_info(maildir_msg.get_info())
+        copy_msg.set_date(maildir_msg.get_date())
         copy_msg.set_subdir('new' if recent else 'cur')
         async with destination.messages_lock.write_lock():
             dest_key = dest_maildir.add(copy_msg)
